@@ -83,6 +83,21 @@ def run(ctx):
         steps.append('R%d' % left)
         sc = ';'.join(steps)
         lines.append('flush %d %d %d %s %s %s' % (kind, cfg, rng.randrange(1 << 20), fs, sc, d.hex() or '-')); meta.append((kind, fs, sc, d))
+    # chain updates between Blocks that shrink, grow or reorder the chain around a filter that stays (a coder that is reused for
+    # the new chain must drop whatever followed it in the old one); instruction-dense data, so that a filter left over from
+    # the old chain would change the bytes
+    from props.c15 import gen_code
+    variants = ['x86+delta:dist=3+lzma2:dict=4KiB', 'delta:dist=3+lzma2:dict=4KiB', 'lzma2:dict=4KiB', 'delta:dist=3+x86+lzma2:dict=4KiB', 'x86+lzma2:dict=4KiB',
+                'arm64+delta:dist=3+lzma2:dict=4KiB', 'delta:dist=3+delta:dist=5+lzma2:dict=4KiB', 'x86+arm64+delta:dist=3+lzma2:dict=4KiB']
+    for i in range(40 if ctx.quick() else 800):
+        a_, b_, c_ = rng.sample(variants, 3)
+        if i < len(variants) - 1: a_, b_ = variants[0], variants[i + 1]
+        n = rng.choice([600, 3000]); d = gen_code(rng, rng.choice(['x86', 'arm64']), n)
+        k1 = rng.randrange(1, n // 2); k2 = rng.randrange(1, n // 3)
+        kind = rng.choice([4, 4, 1]); cfg = rng.choice([0, 1, 4, 10]) << 8
+        if kind == 1: cfg |= (rng.randrange(2) << 12) | (rng.randrange(2) << 16) | (1 << 20)
+        sc = '%s%d;U%s;%s%d;U%s;R%d' % (rng.choice('FB'), k1, b_, rng.choice('FB'), k2, c_, n - k1 - k2)
+        lines.append('flush %d %d %d %s %s %s' % (kind, cfg, rng.randrange(1 << 20), a_, sc, d.hex())); meta.append((kind, a_, sc, d))
     # corpus: back-to-back sync flushes with little new input on binary-tree match finders, flush as first call, flush without input
     for mf in ('bt2', 'bt3', 'bt4', 'hc4'):
         d = (b'abcdefgh12345678' * 40)[:500] + xzgen.gen_data(rng, 100)
